@@ -10,6 +10,7 @@ from .rules import potentials as RP
 from .rules import generic as RG
 from .rules import domain as RD
 from .rules import matrixarray as RM
+from .rules import tables as RT
 
 PROPS = {}
 
@@ -99,6 +100,22 @@ prop('C13',
      '__setitem__/__getitem__ are interpreted for a==b and a!=b (mirrored store, view getter, KeyError->ValueError at '
      'all four look-ups); iterpairs predicate truth table; IdentityMatrixArray construction.',
      'numerical conditioning of linalg.inv (A.dot(A.invert()) == I only to rounding); numpy broadcasting shape errors.')
+
+
+prop('C14',
+     [('R00.dyn', RG.rule_no_dynamic), ('R14.c', RT.rule_pairtable_setitem), ('R14.g', RT.rule_pairtable_getitem),
+      ('R14.i', RT.rule_iterpairs), ('R14.u', RT.rule_setunset_check), ('R14.a', RT.rule_apply),
+      ('R14.l', RT.rule_listify), ('R14.v', RT.rule_valuetable), ('R12.e', RT.rule_export)],
+     'Static analysis of PairTable/ValueTable/Table: def-use and dominance queries on the parsed methods decide that '
+     'each assigned cell receives a deepcopy made inside the innermost key loop (never the caller object, never one '
+     'copy shared by several cells), that the mirrored cell is written exactly when the table is symmetric (guard truth '
+     'table over symmetric x t1==t2), that setUnset assigns through the copying setter only where the value is None, '
+     'that check raises ValueError exactly on a None entry while visiting every unordered pair, the iterpairs '
+     'predicate truth tables over (i<j,i==j,i>j) for all four flag valuations (lambdas evaluated abstractly) and '
+     'type-list order, apply(inplace) frame condition (abstract interpretation with symbolic pair labels), listify on '
+     'the four argument kinds, ValueTable setter/getter/iteration, and the export guards.',
+     'nothing behavioural beyond Python dict semantics (trusted); histories are covered because each rule is an '
+     'invariant of a single method.', trusted=('A1',))
 
 
 def run(pid, tier, repo, seed=0, replay=None):
